@@ -33,3 +33,36 @@ Theorem C20_fresh_means : forall e rci w b w',
   exists o, nth_error (w_kobjs w) (ce_key e) = Some o /\ b = (if ko_revoked o then false else ce_loaded e + rci <? w_now w).
 Proof. exact reload_required_spec. Qed.
 Print Assumptions C20_fresh_means.
+
+(* "With caching disabled by policy nothing is retained between calls": over all histories, in a session without key caches a Decrypt
+   leaves every secret it allocated closed (and touches nothing older), under any fault plan; an Encrypt likewise, except at most one
+   secret - the system key leaked by known finding C09-J on the duplicate-fallback path.  (Envelope/Release.v; there are no cache
+   entries either, because there is no cache.) *)
+From Asherah Require Import Envelope.Session Envelope.Coherent Envelope.Release.
+
+Theorem C20_nothing_retained_without_caching_decrypt : forall svc prod t0 ops s rec muts faults,
+  Forall (benign svc prod) ops ->
+  let h := snd (hrun (hinit t0) ops) in
+  (forall x fa, nth_error (w_sessions (h_world h)) s = Some x -> nth_error (w_factories (h_world h)) (ss_factory x) = Some fa ->
+                fa_sk fa = None /\ ss_ik x = None) ->
+  let w := h_world h in
+  let w' := h_world (snd (hstep h (HDecrypt s rec muts faults))) in
+  (forall sid, (sid < List.length (w_secrets w))%nat -> nth_error (w_secrets w') sid = nth_error (w_secrets w) sid) /\
+  (forall sid sc, (List.length (w_secrets w) <= sid)%nat -> nth_error (w_secrets w') sid = Some sc -> s_closed sc = true) /\
+  (forall k, (k < List.length (w_kobjs w))%nat -> nth_error (w_kobjs w') k = nth_error (w_kobjs w) k).
+Proof. exact nocache_decrypt_releases_everything. Qed.
+Print Assumptions C20_nothing_retained_without_caching_decrypt.
+
+Theorem C20_nothing_retained_without_caching_encrypt : forall svc prod t0 ops s payload faults,
+  Forall (benign svc prod) ops ->
+  let h := snd (hrun (hinit t0) ops) in
+  (forall x fa, nth_error (w_sessions (h_world h)) s = Some x -> nth_error (w_factories (h_world h)) (ss_factory x) = Some fa ->
+                fa_sk fa = None /\ ss_ik x = None) ->
+  let w := h_world h in
+  let w' := h_world (snd (hstep h (HEncrypt s payload faults))) in
+  (forall sid, (sid < List.length (w_secrets w))%nat -> nth_error (w_secrets w') sid = nth_error (w_secrets w) sid) /\
+  (exists leak : list nat, (List.length leak <= 1)%nat /\
+     forall sid sc, (List.length (w_secrets w) <= sid)%nat -> nth_error (w_secrets w') sid = Some sc -> s_closed sc = true \/ In sid leak) /\
+  (forall k, (k < List.length (w_kobjs w))%nat -> nth_error (w_kobjs w') k = nth_error (w_kobjs w) k).
+Proof. exact nocache_encrypt_releases_all_but_one. Qed.
+Print Assumptions C20_nothing_retained_without_caching_encrypt.
